@@ -2,6 +2,8 @@ package streamwriter
 
 import (
 	"bytes"
+	"errors"
+	"io"
 )
 
 type size interface {
@@ -35,7 +37,7 @@ func (w *writer[SizeT, Req, Resp]) Write(p []byte) (int, error) {
 	buf := make([]byte, w.chunkSize)
 	for w.buf.Len() >= int(w.chunkSize) {
 		_, _ = w.buf.Read(buf)
-		err := w.stream.Send(w.req(buf))
+		err := w.send(buf)
 		if err != nil {
 			return 0, err
 		}
@@ -44,10 +46,24 @@ func (w *writer[SizeT, Req, Resp]) Write(p []byte) (int, error) {
 	return len(p), nil
 }
 
+// send sends one chunk. When the receiving side has already ended the stream,
+// Send reports io.EOF and the status of the stream is the actual error.
+func (w *writer[SizeT, Req, Resp]) send(p []byte) error {
+	err := w.stream.Send(w.req(p))
+	if errors.Is(err, io.EOF) {
+		_, recvErr := w.stream.CloseAndRecv()
+		if recvErr != nil {
+			return recvErr
+		}
+	}
+
+	return err
+}
+
 func (w *writer[SizeT, Req, Resp]) Close() error {
 	data := w.buf.Bytes()
 	if len(data) > 0 {
-		err := w.stream.Send(w.req(w.buf.Bytes()))
+		err := w.send(data)
 		if err != nil {
 			return err
 		}
